@@ -56,6 +56,31 @@ def gen(tier, seed, info):
             for v in range(-300, 601):
                 n += 1
                 yield "%s:0:%d:%d cp:1:0:0 %s:2:%d:%d cp:2:0:1 ct:1:2:%d cn:2:1" % (op, a, v, op, a, (v * 7 + 3) % 17 - 2, a)
+    # copy: every attribute x (source value | absent) x (destination value | absent) x overwrite flag,
+    # colours also with an RGB8 secondary on either side; equal pens through clone/copy for equiv
+    def setter(p, a, v):
+        if v is None:
+            return "ca:%d:%d" % (p, a)
+        if a in BOOL_ATTRS:
+            return "sb:%d:%d:%d" % (p, a, v)
+        if a in INT_ATTRS:
+            return "si:%d:%d:%d" % (p, a, v)
+        if isinstance(v, tuple):
+            return "sc:%d:%d:%d sr:%d:%d:%d:%d:%d" % ((p, a, v[0], p, a) + v[1])
+        return "sc:%d:%d:%d" % (p, a, v)
+    vals = {}
+    for a in BOOL_ATTRS:
+        vals[a] = [None, 0, 1]
+    for a, r in ((4, (0, 1, 3)), (8, (-1, 0, 15)), (10, (0, 2, 3))):
+        vals[a] = [None] + list(r)
+    for a in COL_ATTRS:
+        vals[a] = [None, -1, 0, 255, (0, (0, 0, 0)), (255, (1, 2, 3)), (-1, (9, 9, 9)), (0, (0, 0, 1))]
+    for a in range(1, 11):
+        for v1 in vals[a]:
+            for v2 in vals[a]:
+                for ow in (0, 1):
+                    n += 1
+                    yield "%s %s cn:2:1 cp:1:0:%d cp:2:0:%d cp:0:0:%d" % (setter(0, a, v1), setter(1, a, v2), ow, 1 - ow, ow)
     # --- exhaustive 2: descriptions
     m = 0
     alpha = "blredhi-# 019fx+"
